@@ -982,6 +982,9 @@ class BuildManager:
         self.size_in_queue: int = 0
         # SCCs that have been fully processed.
         self.done_sccs: set[int] = set()
+        # Meta files that could not be written in the interface phase of a parallel build;
+        # the implementation phase must not write a meta_ex file for them.
+        self.meta_not_written: set[str] = set()
         # Parallel build workers, list is empty for in-process type-checking.
         self.workers: list[WorkerClient] = []
         # We track which workers are currently free in the coordinator process.
@@ -2403,7 +2406,7 @@ def write_cache(
     return interface_hash, (meta, meta_file)
 
 
-def write_cache_meta(meta: CacheMeta, manager: BuildManager, meta_file: str) -> None:
+def write_cache_meta(meta: CacheMeta, manager: BuildManager, meta_file: str) -> bool:
     # Write meta cache file
     metastore = manager.metastore
     if manager.options.fixed_format_cache:
@@ -2420,6 +2423,28 @@ def write_cache_meta(meta: CacheMeta, manager: BuildManager, meta_file: str) -> 
         # (see https://github.com/python/mypy/issues/3215).
         # The next run will simply find the cache entry out of date.
         manager.log(f"Error writing cache meta file {meta_file}")
+        return False
+    return True
+
+
+def replace_cache_meta(meta: CacheMeta, manager: BuildManager, meta_file: str) -> bool:
+    """Write the meta file of a freshly processed module.
+
+    The meta_ex file (error lines, indirect dependencies) left by a previous run
+    belongs to the previous meta file. It is removed first, so that a new meta file
+    never sits next to an old meta_ex file: if the process is killed, or a write
+    fails, before the new meta_ex file is written, the next run finds no usable
+    cache entry for the module instead of replaying stale errors. Return False if
+    the meta file was not written; the caller must not write a meta_ex file then.
+    """
+    try:
+        manager.metastore.remove(get_meta_ex_name(meta_file))
+    except FileNotFoundError:
+        pass
+    except Exception:
+        manager.log(f"Error removing stale meta_ex file for {meta_file}")
+        return False
+    return write_cache_meta(meta, manager, meta_file)
 
 
 def write_cache_meta_ex(meta_file: str, meta_ex: CacheMetaEx, manager: BuildManager) -> None:
@@ -4839,7 +4864,9 @@ def process_stale_scc(graph: Graph, ascc: SCC, manager: BuildManager) -> None:
             for dep in graph[id].dependencies
             if state.priorities.get(dep) != PRI_INDIRECT
         ]
-        write_cache_meta(meta, manager, meta_file)
+        if not replace_cache_meta(meta, manager, meta_file):
+            manager.commit_module(meta_file)
+            continue
         indirect = [dep for dep in state.dependencies if state.priorities.get(dep) == PRI_INDIRECT]
         meta_ex = CacheMetaEx(
             dependencies=indirect,
@@ -4917,7 +4944,8 @@ def process_stale_scc_interface(
             for dep in state.dependencies
             if state.priorities.get(dep) != PRI_INDIRECT
         ]
-        write_cache_meta(meta, manager, meta_file)
+        if not replace_cache_meta(meta, manager, meta_file):
+            manager.meta_not_written.add(meta_file)
         manager.commit_module(meta_file)
         scc_result.append((id, ModuleResult(graph[id].interface_hash.hex(), []), meta_file))
     manager.done_sccs.add(ascc.id)
@@ -4992,11 +5020,11 @@ def process_stale_scc_implementation(
                 graph[id].xpath, errors, formatter=manager.error_formatter
             )
             meta_ex.error_lines = errors
-            write_cache_meta_ex(meta_file, meta_ex, manager)
             scc_result[id] = ModuleResult(None, formatted)
-        else:
-            # If there are no errors, only write the cache, don't send anything back
-            # to the caller (as a micro-optimization).
+        # If there are no errors, only write the cache, don't send anything back
+        # to the caller (as a micro-optimization).
+        # A meta_ex file must only ever be written next to the meta file it belongs to.
+        if meta_file not in manager.meta_not_written:
             write_cache_meta_ex(meta_file, meta_ex, manager)
         manager.commit_module(meta_file)
 
